@@ -11,6 +11,7 @@
 Python equivalents of Engineering library functions
 """
 import functools
+import re
 
 from pycel.excelutil import EMPTY, ERROR_CODES, flatten, NUM_ERROR, VALUE_ERROR
 from pycel.lib.function_helpers import (
@@ -50,6 +51,9 @@ def _base2dec(value, base):
     return NUM_ERROR
 
 
+_DEC_TEXT_RE = re.compile(r'\s*[+-]?[0-9]+\s*')
+
+
 def _dec2base(value, places=None, base=16):
     value = list(flatten(value))
     if len(value) != 1 or isinstance(value[0], bool):
@@ -63,6 +67,10 @@ def _dec2base(value, places=None, base=16):
         if base == 8:
             return NUM_ERROR
         value = 0
+
+    if isinstance(value, str) and not _DEC_TEXT_RE.fullmatch(value):
+        # int() would also take '1_0' and non-ASCII digits
+        return VALUE_ERROR
 
     try:
         value = int(value)
